@@ -414,14 +414,64 @@ def _method_qualifies(m: ast.FunctionDef) -> bool:
     body = [b for b in m.body if not (isinstance(b, ast.Expr) and isinstance(b.value, ast.Constant))]
     if is_function and len(body) < 2:
         return False  # a one-expression method is read through by the summaries instead
+    early = [n for n in ast.walk(m) if isinstance(n, ast.Return) and not (is_function and n is m.body[-1])]
+    if early and _tailify(m.body, '__r') is None:
+        return False
     for n in ast.walk(m):
-        if n is m or (is_function and n is m.body[-1]):
+        if n is m or isinstance(n, ast.Return):
             continue
-        if isinstance(n, (ast.Return, ast.Yield, ast.YieldFrom, ast.Await, ast.Nonlocal, ast.Global, ast.FunctionDef, ast.AsyncFunctionDef, ast.ClassDef, ast.Lambda)):
+        if isinstance(n, (ast.Yield, ast.YieldFrom, ast.Await, ast.Nonlocal, ast.Global, ast.FunctionDef, ast.AsyncFunctionDef, ast.ClassDef, ast.Lambda)):
             return False
         if isinstance(n, ast.Call) and isinstance(n.func, ast.Attribute) and n.func.attr == m.name:
             return False
     return True
+
+
+def _ends(block: List[ast.stmt]) -> bool:
+    """Does control never fall off the end of `block`?"""
+    if not block:
+        return False
+    last = block[-1]
+    if isinstance(last, (ast.Return, ast.Raise)):
+        return True
+    if isinstance(last, ast.If):
+        return bool(last.orelse) and _ends(last.body) and _ends(last.orelse)
+    return False
+
+
+def _has_return(s: ast.AST) -> bool:
+    return any(isinstance(x, ast.Return) for x in ast.walk(s))
+
+
+def _tailify(body: List[ast.stmt], ret: str) -> Optional[List[ast.stmt]]:
+    """`body` with every `return E` turned into `ret = E`, for bodies whose returns sit in (nested) `if` blocks or at the top
+    level: the statements after an `if` that returns on one side are moved into the side that falls through.  None if a
+    return hides in a loop / try / with."""
+    out: List[ast.stmt] = []
+    for i, st in enumerate(body):
+        rest = body[i + 1:]
+        if isinstance(st, ast.Return):
+            asg = ast.Assign(targets=[ast.Name(id=ret, ctx=ast.Store())], value=st.value if st.value is not None else ast.Constant(value=None))
+            out.append(ast.fix_missing_locations(ast.copy_location(asg, st)))
+            return out
+        if not _has_return(st):
+            out.append(st)
+            continue
+        if not isinstance(st, ast.If):
+            return None
+        b_body = list(st.body) + ([] if _ends(st.body) else copy.deepcopy(rest))
+        b_else = list(st.orelse) + ([] if (st.orelse and _ends(st.orelse)) else copy.deepcopy(rest))
+        tb, te = _tailify(b_body, ret), _tailify(b_else, ret)
+        if tb is None or te is None:
+            return None
+        new = ast.If(test=st.test, body=tb or [ast.Pass()], orelse=te)
+        out.append(ast.fix_missing_locations(ast.copy_location(new, st)))
+        return out
+    # fell off the end without a return on this path
+    if not _ends(out):
+        asg = ast.Assign(targets=[ast.Name(id=ret, ctx=ast.Store())], value=ast.Constant(value=None))
+        out.append(ast.fix_missing_locations(asg))
+    return out
 
 
 def _is_simple_contextmanager(m: ast.FunctionDef) -> bool:
@@ -580,7 +630,17 @@ def _inline_methods_in_class(c: ast.ClassDef, extra: Optional[Dict[str, ast.Func
                 pre.append(ast.fix_missing_locations(asg))
         out = list(pre)
         is_function = isinstance(h.body[-1], ast.Return)
-        for hs in (h.body[:-1] if is_function else h.body):
+        hbody = h.body
+        early = [n for n in ast.walk(h) if isinstance(n, ast.Return) and n is not h.body[-1]]
+        if early:
+            # several returns: read as assignments to one result local, then `return <that local>`
+            tb = _tailify(copy.deepcopy(h.body), '__result')
+            if tb is None:
+                return None
+            hbody = tb + [ast.Return(value=ast.Name(id='__result', ctx=ast.Load()))]
+            ren['__result'] = f'{h.name}__result'
+            is_function = True
+        for hs in (hbody[:-1] if is_function else hbody):
             if isinstance(hs, ast.Expr) and isinstance(hs.value, ast.Constant) and isinstance(hs.value.value, str):
                 continue
             x = _Rename({k: v for k, v in ren.items() if k not in subst}).visit(copy.deepcopy(hs))
@@ -590,7 +650,7 @@ def _inline_methods_in_class(c: ast.ClassDef, extra: Optional[Dict[str, ast.Func
         out = _fold_constant_ifs(out)
         if not is_function:
             return out, None
-        rv = _Rename({k: v for k, v in ren.items() if k not in subst}).visit(copy.deepcopy(h.body[-1].value))
+        rv = _Rename({k: v for k, v in ren.items() if k not in subst}).visit(copy.deepcopy(hbody[-1].value))
         if subst:
             rv = _SubstExpr(subst).visit(rv)
         return out, ast.fix_missing_locations(rv)
